@@ -293,6 +293,78 @@ theorem parse_length_too_long (ks : Nat → UInt8) (off : Nat) (L : Nat) (body :
   simp only [this, xorStream_xorStream]
   rw [readLe32_le32 (by omega), if_neg (by omega), if_pos (by simp; omega)]
 
+/-- EXACT characterisation of delivery, for an ARBITRARY byte stream: a packet is delivered iff the stream holds a
+complete frame with an in-bounds length whose last 32 decrypted bytes equal the hash of the decrypted bytes before them;
+the packet and the remainder are then determined. Every statement about corrupted streams is a corollary. -/
+theorem parse_delivers_iff (ks : Nat → UInt8) (off : Nat) (s : Bytes) (p : Packet) (rest : Bytes) :
+    parsePacket H ks off s = .ok (some (p, rest)) ↔
+      4 ≤ s.length ∧
+      64 ≤ readLe32 (xorStream ks off (s.take 4)) ∧ readLe32 (xorStream ks off (s.take 4)) ≤ maxLen ∧
+      readLe32 (xorStream ks off (s.take 4)) ≤ (s.drop 4).length ∧
+      (xorStream ks (off + 4) ((s.drop 4).take (readLe32 (xorStream ks off (s.take 4))))).drop
+          (readLe32 (xorStream ks off (s.take 4)) - 32) =
+        H ((xorStream ks (off + 4) ((s.drop 4).take (readLe32 (xorStream ks off (s.take 4))))).take 32 ++
+           ((xorStream ks (off + 4) ((s.drop 4).take (readLe32 (xorStream ks off (s.take 4))))).drop 32).take
+             (readLe32 (xorStream ks off (s.take 4)) - 64)) ∧
+      p = ⟨(xorStream ks (off + 4) ((s.drop 4).take (readLe32 (xorStream ks off (s.take 4))))).take 32,
+           ((xorStream ks (off + 4) ((s.drop 4).take (readLe32 (xorStream ks off (s.take 4))))).drop 32).take
+             (readLe32 (xorStream ks off (s.take 4)) - 64)⟩ ∧
+      rest = (s.drop 4).drop (readLe32 (xorStream ks off (s.take 4))) := by
+  unfold parsePacket
+  generalize readLe32 (xorStream ks off (s.take 4)) = L
+  by_cases h4 : s.length < 4
+  · simp only [h4, if_true]
+    constructor
+    · intro h; cases h
+    · intro h; omega
+  · simp only [h4, if_false]
+    by_cases hb : L < 64 ∨ L > maxLen
+    · simp only [hb, if_true]
+      constructor
+      · intro h; cases h
+      · intro h; omega
+    · simp only [hb, if_false]
+      by_cases hl : (s.drop 4).length < L
+      · simp only [hl, if_true]
+        constructor
+        · intro h; cases h
+        · intro h; omega
+      · simp only [hl, if_false, Packet.hash]
+        by_cases hc : (xorStream ks (off + 4) ((s.drop 4).take L)).drop (L - 32) =
+            H ((xorStream ks (off + 4) ((s.drop 4).take L)).take 32 ++
+               ((xorStream ks (off + 4) ((s.drop 4).take L)).drop 32).take (L - 64))
+        · simp only [hc, ↓reduceIte]
+          constructor
+          · intro h
+            cases h
+            exact ⟨by omega, by omega, by omega, by omega, trivial, rfl, rfl⟩
+          · rintro ⟨_, _, _, _, _, hp, hr⟩
+            rw [hp, hr]
+        · simp only [hc, ↓reduceIte]
+          constructor
+          · intro h; cases h
+          · rintro ⟨_, _, _, _, hc', _, _⟩
+            exact hc'.elim
+
+/-- a frame whose nonce/payload bytes were replaced (length field and checksum bytes as sent): delivered EXACTLY when
+the hash collides on the original and the altered nonce ‖ payload -/
+theorem parse_body_altered_iff (ks : Nat → UInt8) (off : Nat) (p : Packet) (hp : p.WF) (n' pl' rest : Bytes)
+    (hH : (p.hash H).length = 32) (hn : n'.length = 32) (hpl : pl'.length = p.payload.length) (q : Packet) (r : Bytes) :
+    parsePacket H ks off (xorStream ks off (le32 (pl'.length + 64) ++ (n' ++ (pl' ++ p.hash H))) ++ rest)
+        = .ok (some (q, r)) ↔
+      (H (p.nonce ++ p.payload) = H (n' ++ pl') ∧ q = ⟨n', pl'⟩ ∧ r = rest) := by
+  rw [parse_plain H ks off n' pl' _ rest hn hH (by rw [hpl]; exact hp.2)]
+  simp only [Packet.hash]
+  by_cases hc : H (p.nonce ++ p.payload) = H (n' ++ pl')
+  · simp only [hc, ↓reduceIte]
+    constructor
+    · intro h; cases h; exact ⟨trivial, rfl, rfl⟩
+    · rintro ⟨_, rfl, rfl⟩; rfl
+  · simp only [hc, ↓reduceIte]
+    constructor
+    · intro h; cases h
+    · rintro ⟨h, _, _⟩; exact h.elim
+
 /-! ### handshake -/
 
 section
